@@ -24,8 +24,9 @@ PROP = "C12"
 RUNS = {"quick": 1500, "thorough": 60000}
 DEADLINE = {"quick": 200, "thorough": 3000}
 OPS_KEYS = ("variants",)
-RULE = ("case = (solver x noise type x SDE spec, dtype, t0, dt, number of steps, on/off-grid horizon, stub or real "
-        "Brownian motion, list of output-time schedules described relative to the step grid) from seeded named PRNG "
+RULE = ("case = (solver x noise type x SDE spec, state dtype, time dtype, t0, dt, number of steps, on/off-grid horizon, "
+        "stub / real / default (bm=None) Brownian motion, adaptive-only options, list of output-time schedules described "
+        "relative to the step grid, each through sdeint or sdeint_adjoint) from seeded named PRNG "
         "streams; distinct = distinct hash of the case; non-trivial = at least one schedule with an output strictly "
         "inside a step AND one with an on-grid or 1-ulp-off-grid output were checked on a grid of >= 2 steps")
 ASSUMPTIONS = ["StubBrownian (stateless closed-form path) stands in for the Brownian service in most runs so that a "
